@@ -595,6 +595,10 @@ class VM:
     def eq(self, a, b):
         if a is b:
             return True
+        for x, y in ((a, b), (b, a)):
+            h = getattr(type(x), '__symeq__', None)       # harness-level symbolic tokens decide their own equality
+            if h is not None:
+                return h(x, y, self)
         from . import models_str as ms
         if isinstance(a, ms.SStr) or isinstance(b, ms.SStr):
             if not isinstance(a, (ms.SStr, str)) or not isinstance(b, (ms.SStr, str)):
@@ -692,6 +696,8 @@ class VM:
                     if x.rid == y.rid:
                         cs.append(zint(x.off) == zint(y.off))
                         cs.append(zint(x.length) == zint(y.length))
+                    elif self.entails(zint(x.length) > 0):
+                        return False        # distinct opaque runs have distinct contents (equal contents = the same run reused)
                     else:
                         ok = False
                         break
